@@ -82,6 +82,8 @@ class Project:
                     f"Dependency loop detected {target_name} -> {dep}"
                 )
             self.dfs(dep, state)
+        # Only the targets on the current path can close a loop:
+        state.remove(target_name)
 
     def check_target(self, target_name):
         state = set()
